@@ -7,4 +7,6 @@ def jobs():
     for n in (1, 2, 3, 5, 8):
         for idx in sorted(set((0, 1 % n, n // 2, n - 1))):
             j.append(X("c01_from_parts", {"n": n, "idx": idx, "pushes": n + 1}, "Window::from_parts, capacity %d, oldest-index %d, symbolic contents: every observer and every iterator split against the abstract sequence, before and after each of %d pushes" % (n, idx, n + 1), cost=2 + n))
+    for (n, idx) in ((200, 150), (254, 253), (129, 128)):
+        j.append(X("c01_from_parts", {"n": n, "idx": idx, "pushes": 1}, "Window::from_parts, capacity %d, oldest-index %d (positions beyond 127/255 in PeriodType arithmetic): every observer and iterator split" % (n, idx), cost=60))
     return j
